@@ -157,6 +157,27 @@ CHECKS = {
             "Python's codec tables are trusted, the slicing is not; sub-domains the property leaves open are counted "
             "and not asserted.",
             "DESIGN.md 3/C07"),
+    "C09": ("exploration",
+            "Hypothesis-generated documents (XML and object routes), write -> load round trip judged by an independent "
+            "structural dumper (incl. probed length adjusters) against the model and by identical decoding of "
+            "synthesised packets",
+            "Every generated definition is written with to_xml_tree and write_xml and loaded again; the canonical dump "
+            "of the re-loaded definition must equal the dump before writing, and (XML route) the dump computed from the "
+            "model without the library; packets synthesised to reach the document's containers, plus unrecognised and "
+            "mismatched ones, must decode identically before and after. Write or re-load exceptions are violations. "
+            "Sampled over documents with non-default values for every defaulted attribute.",
+            "Empty descriptions/units mean absent; the dumper (vf/xdoc.py) is trusted; bounded by the supported subset.",
+            "DESIGN.md 3/C09"),
+    "C15": ("exploration",
+            "Hypothesis-generated documents; metamorphic relations over serialisations: W(D)==W(D), stability of "
+            "G2==G3 under write/load cycles, dump(D) unchanged by writing, namespace validity of every element",
+            "For each generated definition (three namespace conventions and object-built) two writes, a write after "
+            "parsing packets and two write_xml files must be byte-identical, the definition (dump, inheritor order, "
+            "lookup order) must be unchanged by writing, the output must be well-formed with every element in the "
+            "definition's namespace and no comment/PI nodes, and the second and third generation of a write/load "
+            "cycle must be byte-identical. Sampled over documents.",
+            "W is lxml tostring of to_xml_tree with the document's fixed header date.",
+            "DESIGN.md 3/C15"),
 }
 
 PENDING_REASON = "check not built yet in this round (planned, see DESIGN.md section 3); nothing is claimed for it"
